@@ -33,6 +33,9 @@ WITNESS = {"sub": "witness", "quick": {}, "thorough": {}, "timeout": 600}
 SCHED_CONF = {"sub": "sched-conf", "quick": {"cases": 60, "schedules": 3}, "thorough": {"cases": 2500, "schedules": 4, "max-txs": 10}, "timeout": 7000}
 SCHED_CONF_RULE = ("; sched-conformance: blocks of the conformance family (transfers + data-dependent storage contracts, non-zero fees so that the beneficiary is never read) run on the real scheduler under seeded controller schedules with 2-3 workers; the totally ordered hook-event trace is replayed through the PROVEN step function of Model/Sched.lean: each event must be an enabled model action and every observed value (read version and value, estimate/blocked/new-location flags, validation verdict, rewind and validation timestamps, finality lower bound, commit order) must equal the model's; each transaction's program is reconstructed from the observed incarnations (equal values read => equal behaviour, else reported)")
 
+REPR = {"sub": "repr", "quick": {"cases": 3000}, "thorough": {"cases": 150000}, "timeout": 3000}
+REPR_RULE = ("repr-differential: blocks of 1-7 finalized journal states over 3 accounts x 3 slots x 5 code ids (selfdestruct, CREATE over absent/destroyed/balance-only accounts with constructor storage, transfers, nonce bumps, EIP-7702 set/re-point/clear, SSTOREs with the original value read first, EIP-161 empty touches, backing store with and without storage) are published through the real IncarnationDb::publish_writes and committed to stock revm's State; before every publication and after the block, accounts, code and slots are read through the real IncarnationDb as a later transaction does; each read must equal revm State's (oracle) and the Lean model's physical read (readStorage/readBasic/readCode over mvOf..skipReal codeChangedReal) and logical value; the published MV entries must equal the model's entry by entry; FinalizedAccount::from vs classify on every generated flag combination; distinct = distinct sessions with >= 2 changes; ")
+
 PROPS = {
     "C01": {
         "harness": [e2e("mixed,lifecycle,code,invalid,precompile", 100, 3000), SCHED_CONF, WITNESS],
@@ -97,6 +100,24 @@ PROPS = {
         "assumptions": ["fee-disabled mode (optional_fee_charge feature) is not generated"],
         "explanation": "Theorems scan_fold, validate_sound (over all op histories), evolves_ops, record_guard, invalidate_guard, defer_iff, reward_formula, applyReward_spec, commit_fold.",
     },
+    "C08": {
+        "lean_modules": ["Props.C08"],
+        "harness": [REPR, e2e("lifecycle,mixed", 60, 2000, label="lifecycle")],
+        "rule": REPR_RULE + E2E_RULE,
+        "trusted_base": E2E_TRUST,
+        "modelled": ["FinalizedAccount::from (src/account.rs)", "IncarnationDb::publish_writes, basic, storage (src/incarnation_db.rs) as Model/Repr.lean: Basic / StorageReset / Storage / Code entries per transaction, latest-preceding-version reads with the reset-vs-slot comparison", "revm State's account/storage lifecycle (CacheState::apply_account_state) as `commitL`: destroy clears storage, create resets it to the constructor's slots, update overwrites changed slots"],
+        "assumptions": ["ClearBumps (hypothesis of repr_basic_real): revm never turns non-empty code into empty code while nonce and balance both stay equal (SELFDESTRUCT deletes, EIP-7702 clearing bumps the nonce, CREATE over code is a collision); the generators respect it and the e2e oracle would expose a violation", "an account without nonce and code has no storage in the backing store (relied on by revm's State itself)", "each transaction reads an account before changing it (revm's journal always does), so the snapshot the publication compares against is the in-order pre-state (by validation, C02)"],
+        "explanation": "Theorems repr_storage (unconditional), repr_basic / repr_basic_real, deleted_then_zero, created_then_only_own_slots, updated_keeps_storage, classify_spec: for every block and every interleaving of destroy / create / update per account, a physical read through the representation equals the logical state of in-order execution; tied to the code by the three-way repr differential and the lifecycle e2e family.",
+    },
+    "C09": {
+        "lean_modules": ["Props.C09"],
+        "harness": [REPR, e2e("code,mixed", 60, 2000, label="code")],
+        "rule": REPR_RULE + E2E_RULE,
+        "trusted_base": E2E_TRUST,
+        "modelled": ["the code_changed decision and the Code / Basic publication of IncarnationDb::publish_writes; code_by_address (latest preceding Code version, else backing code by hash)"],
+        "assumptions": ["code identifiers stand for code hashes (collision-free)", "the published info carries the bytecode when the code hash changed (info.code.is_some(): revm attaches it on CREATE and EIP-7702; exercised by e2e)"],
+        "explanation": "Theorems code_entry_current, repr_code, repr_code_real (no hypothesis beyond the account being the logical one), codeChangedOk_real, redelegation_keeps_storage: after any sequence of deploy / set / re-point / clear / set-again / delete / recreate, a later transaction resolves exactly the code in-order execution sees, and storage is untouched by re-delegation.",
+    },
     "C14": {
         "lean_modules": ["Props.C14"],
         "harness": [],
@@ -128,7 +149,7 @@ PROPS = {
         "trusted_base": COMMON_TRUST,
         "modelled": ["TxDependency::{next, remove, commit, key_tx, add} (src/tx_dependency.rs) with per-tx and per-predecessor mutexes and the Relaxed cursor"],
         "assumptions": ["parking_lot mutexes give mutual exclusion", "HashSet iteration order is arbitrary (the model takes the order from the trace)"],
-        "explanation": "Invariants of the dependency graph over all interleavings; see theorem list.",
+        "explanation": "Over every state reachable from init n (any number of threads, any interleaving of next/remove/commit/key_tx/add steps, one action per lock acquisition / critical section): lock_owner, dep_mutex, aff_mutex (a lock is held exactly by the thread inside its critical section); edge_covered (every forward edge t->d, d != t, has its reverse entry: no wait is orphaned, also during remove); stale_edge_harmless (remove clears only edges that still point at it); claimable_covered / claimable_quiescent (an on-board transaction without dependency is at or above the claim cursor or in the hands of a thread that will lower the cursor); single_claim, handoff_takes_offboard, handoff_once (a transaction is handed out only by a step that takes it off board: claimed at most once per on-boarding).",
     },
     "C17": {
         "lean_modules": ["Props.C17"],
